@@ -5,6 +5,7 @@ import (
 	"encoding/json"
 	"errors"
 	"fmt"
+	"go/ast"
 	"go/token"
 	"os"
 	"path/filepath"
@@ -13,6 +14,7 @@ import (
 
 	"github.com/dave/dst"
 	"github.com/dave/dst/decorator"
+	"github.com/dave/dst/decorator/resolver"
 	"github.com/dave/dst/decorator/resolver/goast"
 	"github.com/dave/dst/decorator/resolver/simple"
 	"golang.org/x/tools/go/packages"
@@ -24,13 +26,14 @@ import (
 
 // C20: saving a package writes exactly its files, unchanged unless edited.
 
-var c20Pool = []string{"call", "blank", "dotted", "typepos", "@usesXa", "@usesXb", "@linedir"}
+var c20Pool = []string{"call", "blank", "dotted", "typepos", "@usesXa", "@usesXb", "@linedir", "@dotX"}
 
 // two files that use different packages with the same name (x): an alias generated for one file must
 // not leak into another
 var c20Inline = map[string]string{
 	"@usesXa": "package a\n\nimport \"a.b/x\"\n\nvar va = x.V\n",
 	"@usesXb": "package a\n\nimport \"c.d/x\"\n\nvar vb = x.V\n\nvar wb = x.K\n",
+	"@dotX":   "package a\n\nimport . \"a.b/x\"\n\nvar vd = V\n",
 	// generated-code style: a line directive above the package clause names another file
 	"@linedir": "//line grammar.y:1\npackage a\n\nimport \"fmt\"\n\nvar g = fmt.Sprint(1)\n",
 }
@@ -46,7 +49,7 @@ func init() {
 	core.Register(&core.Prop{
 		ID:    "C20",
 		Level: "fault_enumeration",
-		Rule: "hand-built decorator.Package values (1-3 files chosen from 7 import-bearing canonical sources (two use different packages of the same name, one carries a //line directive above its package clause), in 1-2 directories of a fresh temporary tree that also holds unrelated files) x every assignment of {unedited, declaration needing a new import appended, last declaration removed, declarations referring to two equally named packages appended} to the files " +
+		Rule: "hand-built decorator.Package values (1-3 files chosen from 8 import-bearing canonical sources (two use different packages of the same name, one dot-imports one of them, one carries a //line directive above its package clause), in 1-2 directories of a fresh temporary tree that also holds unrelated files) x every assignment of {unedited, declaration needing a new import appended, last declaration removed, declarations referring to two equally named packages appended} to the files " +
 			"x every position of the package-name resolver's call sequence failed (choice tree, one failure), through Package.SaveWithResolver on the real file system; oracle: directory snapshot (paths, bytes, modes) before/after: no path appears or disappears, " +
 			"each saved file equals an independently computed import-managed print of a clone, unedited files are byte-identical, on failure the error is returned (wrapping the resolver's), the failing file and every later file are untouched; non-trivial = case with an edit or a failure",
 		Assumptions: []string{"decorator.Load itself (go/packages) is not exercised: packages are built by hand with the same Decorator/Filenames/Syntax fields Load fills in"},
@@ -94,7 +97,7 @@ func runC20(ctx *core.Ctx, unit int) {
 			// quick tier: triples drawn from the first three sources, or containing both same-name files
 			hasA, hasB, small := false, false, true
 			for _, f := range files {
-				hasA = hasA || f == "@usesXa"
+				hasA = hasA || f == "@usesXa" || f == "@dotX"
 				hasB = hasB || f == "@usesXb"
 				small = small && (f == c20Pool[0] || f == c20Pool[1] || f == c20Pool[2])
 			}
@@ -183,7 +186,7 @@ func c20Exec(cs c20Case, c *explore.Chooser) core.Outcome {
 	os.WriteFile(filepath.Join(root, "elsewhere", "x.go"), []byte("package x\n"), 0o644)
 
 	fset := token.NewFileSet()
-	dec := decorator.NewDecoratorWithImports(fset, localPath, goast.WithResolver(simple.New(stdNames)))
+	dec := decorator.NewDecoratorWithImports(fset, localPath, c20Resolver{goast.WithResolver(simple.New(stdNames))})
 	pkg := &decorator.Package{Package: &packages.Package{PkgPath: localPath}, Dir: dirs[0], Decorator: dec, Imports: map[string]*decorator.Package{}}
 	var names []string
 	srcs := map[string]string{}
@@ -330,4 +333,25 @@ func c20Exec(cs c20Case, c *explore.Chooser) core.Outcome {
 func splitSnap(s string) (mode, data string) {
 	i := strings.Index(s, "\x00")
 	return s[:i], s[i+1:]
+}
+
+// c20Resolver is the syntax-based resolver, extended for the one pool file that dot-imports a.b/x (which
+// the syntax-based resolver refuses): there the unresolved identifiers V, K, W, F, T denote that package.
+type c20Resolver struct{ inner resolver.DecoratorResolver }
+
+func (r c20Resolver) ResolveIdent(file *ast.File, parent ast.Node, parentField string, id *ast.Ident) (string, error) {
+	if file != nil {
+		for _, is := range file.Imports {
+			if is.Name != nil && is.Name.Name == "." {
+				if _, isSel := parent.(*ast.SelectorExpr); !isSel && id.Obj == nil {
+					switch id.Name {
+					case "V", "K", "W", "F", "T":
+						return "a.b/x", nil
+					}
+				}
+				return "", nil
+			}
+		}
+	}
+	return r.inner.ResolveIdent(file, parent, parentField, id)
 }
